@@ -1145,6 +1145,7 @@ theorem watch_startTop {s : St} (h : WatchInv s) (t : Nat) (op : TopOp) : WatchI
   case gc => exact simple _ [.gc] (WStep.of_same (by csame) hc) rfl rfl (by intro g hg; simp at hg; subst hg; trivial)
   case poll => exact simple _ [.poll] (WStep.of_same (by csame) hc) rfl rfl (by intro g hg; simp at hg; subst hg; trivial)
   case frameEnd => exact simple _ [.gc, .poll] (WStep.of_same (by csame) hc) rfl rfl (by intro g hg; simp at hg; rcases hg with rfl | rfl <;> trivial)
+  case clearTrackers => exact simple _ [] (WStep.of_same (by unfold clearTrackers; csame) hc) rfl rfl (frames_plain_ok _)
   case wSysEvent sys ty pid =>
     have h1 : WStep s ((s.emit (.top t)).emit (.send pid)) := WStep.of_same (by csame) hc
     have h2 := h1.trans (wstep_fresh h1.core)
